@@ -13,8 +13,10 @@ unmodified layer1/tdma_sched.c working on the real `l1s.tdma_sched`.
   ways, the 9th tdma_schedule / tdma_schedule_set must return -1 and change nothing (memcmp of the
   whole scheduler), every other frame holds sentinels, then 25 frame steps must run exactly what
   was scheduled.
-* Set sweep: every ring position x every offset x 7 set shapes of 1..6 frames (last frame < 25 ahead),
+* Set sweep: every ring position x every offset x 8 set shapes of 1..6 frames (incl. idle frames: 2 and 3 end-of-frame markers in a row) (last frame < 25 ahead),
   on an empty scheduler and with witness items in every 4th frame, then 30 frame steps.
+* Reset sweep (in the set sweep jobs): from every ring position an item / a three-item set at every offset 0..24,
+  and a ring with an item in every frame; tdma_sched_reset(); 30 frame steps: nothing of a later frame may run.
 * Order sweep: for n = 1..8 all n^n assignments of n priority ranks to n items of one frame (all
   permutations and all tie patterns), scheduled once with tdma_schedule and once as a set, at
   ring position / offset cycling through all 625 pairs: must run in ascending priority with
@@ -107,9 +109,11 @@ def _job(job):
             crash = line[8:].strip()
         elif line.startswith("{"):
             try:
-                js = json.loads(line)
+                js = dict(js or {}, **json.loads(line))
             except ValueError:
                 pass
+    if js is not None and "violations" not in js and "harness_error" not in js:
+        js = None                    # only a partial counter line: the run did not finish
     return {"name": name, "args": args, "rc": rc, "js": js, "v": v, "hd": hd, "crash": crash, "err": _san_summary(err.decode(errors="replace"))}
 
 
@@ -195,7 +199,7 @@ def run(ctx):
         results = ctx.pmap(_job, jobs)
 
         c = ctx.cov
-        c.update({"states": 0, "transitions": 0, "order_cases": 0, "capacity_cases": 0, "refusals_checked": 0, "setsweep_cases": 0,
+        c.update({"states": 0, "transitions": 0, "order_cases": 0, "capacity_cases": 0, "refusals_checked": 0, "setsweep_cases": 0, "resetsweep_cases": 0,
                   "set_calls_nonfirst_frame_on_slot24": 0, "set_calls_wrapping_ring": 0, "history_dependent_keys": 0, "verify_requests": 0,
                   "sampled_traces_rerun_alone": 0, "sampled_traces_differing": 0, "resets_from_callbacks": 0,
                   "execute_calls": 0, "items_due_at_execute": 0, "schedule_calls": 0, "set_calls": 0, "resets": 0,
@@ -224,7 +228,7 @@ def run(ctx):
                           "resets", "bad_transitions", "sampled_traces_rerun_alone", "sampled_traces_differing", "resets_from_callbacks"):
                     c[k] += js[k]
             elif ok:
-                for k in ("order_cases", "capacity_cases", "refusals_checked", "setsweep_cases"):
+                for k in ("order_cases", "capacity_cases", "refusals_checked", "setsweep_cases", "resetsweep_cases"):
                     c[k] += js.get(k, 0)
             if ok:
                 for k in ("set_calls_nonfirst_frame_on_slot24", "set_calls_wrapping_ring", "history_dependent_keys", "verify_requests"):
@@ -237,11 +241,12 @@ def run(ctx):
         c["traces_validated_against_impl"] = c["transitions"]
         c["order_cases_expected"] = 2 * sum(n ** n for n in range(1, 9))
         c["capacity_cases_expected"] = 25 * 25 * 4
-        # 7 shapes of 1,1,2,3,3,4,6 frames; a set is in the domain if its last frame is < 25 ahead; x 2 variants x 25 positions
-        c["setsweep_cases_expected"] = 25 * 2 * sum(25 - (f - 1) for f in (1, 1, 2, 3, 3, 4, 6))
+        # 8 shapes of 1,1,2,3,3,4,6,5 frames (two of them with idle frames in the middle); a set is in the domain if its last frame is < 25 ahead; x 2 variants x 25 positions
+        c["setsweep_cases_expected"] = 25 * 2 * sum(25 - (f - 1) for f in (1, 1, 2, 3, 3, 4, 6, 5))
         c["exhaustive"] = bool(complete and c["frontier_exhausted"] and c["order_cases"] == c["order_cases_expected"]
                                and c["capacity_cases"] == c["capacity_cases_expected"]
-                               and c["setsweep_cases"] == c["setsweep_cases_expected"])
+                               and c["setsweep_cases"] == c["setsweep_cases_expected"]
+                               and c["resetsweep_cases"] == 25 * (25 * 2 + 1))
         ctx.sample({"bfs_event_sequence": "s24.7,t,S0.2,r3.1.4,R,x", "meaning": "schedule(off 24, prio 32767); frame step; set shape 2 at off 0; "
                     "re-scheduling item at off 3 (follow-up 1 frame later); reset; execute without advance"})
         ctx.sample({"capacity_case": "capacity:24:1:3", "meaning": "ring position 24, offset 1 (wraps to bucket 0), whole ring filled with 200 items"})
